@@ -7,6 +7,7 @@ Event language (dicts):
   {"op":"import","m":module}
   {"op":"calc",  "c":name}
   {"op":"init",  "g":group, "T":tab}                 module.init(T) / init_spectral_lines(T)
+  {"op":"reload","g":group, "T":tab}                 module.init(T, reload=True)
   {"op":"create","T":tab}                            PeriodicTable(tab) + mass.init + density.init
   {"op":"assign","T":tab, "a":atom, "p":prop}         setattr(atom, prop, <marker value>)
   {"op":"mutate","T":tab, "a":atom, "p":prop}         in-place change of the mutable value served
@@ -101,7 +102,7 @@ def ser(v, depth=0):
         # the scattering-factor table of one fixed element (Co) and of the neutron (which has none, but whose file name
         # n.nff would collide with nitrogen's on a case-insensitive key) is part of the served value
         tab = ""
-        if atom_key(v.element).startswith(("27-", "0-")):
+        if atom_key(v.element).startswith(("27-", "0-", "104-")):      # (Rf: an element without a data file)
             try:
                 t = v.sftable
                 tab = "," + h(t.tobytes()) if t is not None else ",notable"
@@ -440,6 +441,18 @@ def execute_event(ev):
         m = importlib.import_module("periodictable." + mod)
         try:
             getattr(m, fn)(table(ev["T"]))
+        except Exception as e:
+            return {"cls": "X", "exc": type(e).__name__, "msg": str(e)[:100]}
+        return {"cls": "ok"}
+    if op == "reload":
+        mod, fn = INIT_FN[ev["g"]]
+        m = importlib.import_module("periodictable." + mod)
+        f = getattr(m, fn)
+        try:
+            if "reload" in f.__code__.co_varnames[:f.__code__.co_argcount]:
+                f(table(ev["T"]), reload=True)
+            else:
+                f(table(ev["T"]))
         except Exception as e:
             return {"cls": "X", "exc": type(e).__name__, "msg": str(e)[:100]}
         return {"cls": "ok"}
